@@ -58,6 +58,14 @@ def replay_one(ctx, mm):
 
 def run(ctx):
     vh = ctx.vh()
+    if ctx.replay and json.load(open(ctx.replay)).get("kind") == "codes":
+        rc = ctx.tlc("MCCodes", "SPECIFICATION Spec\nCHECK_DEADLOCK FALSE\n", label="c16_codes", collect_emit=False, count=False)
+        with open(rc["out"]) as f:
+            pc = subprocess.run([vh, "codes-check"], stdin=f, stdout=subprocess.PIPE, stderr=subprocess.PIPE, text=True)
+        print(pc.stdout.strip())
+        if pc.returncode == 1:
+            print("VIOLATION property=C16 replay=%s" % ctx.replay)
+        return pc.returncode
     if ctx.replay:
         r = vlib.run([vh, "ignoreset-replay", "-replay", ctx.replay])
         print(r.stdout.strip())
